@@ -385,14 +385,21 @@ func (st *c12State) caseConfig(i int64) {
 		at := uint64(1 + r.Intn(40))
 		it2 := c12Interrupt(r)
 		storm := r.Intn(4) == 0 // the device raises the request again on every later access (e.g. a write trap wired to NMI)
+		fresh := storm && r.Bool() // a NEW request object every time (a board that reports every access fault by NMI)
 		mem.hook = func(n uint64) {
 			if n == at || (storm && n > at) {
 				cpu.Interrupt = it2
+				if fresh {
+					cpu.Interrupt = z80.NMIInterrupt()
+				}
 			}
 		}
 		intClass += "+callback-raised"
 		if storm {
 			intClass += "(storm)"
+		}
+		if fresh {
+			intClass += "(fresh NMI object each time)"
 		}
 	}
 	st.class(mclass)
